@@ -33,6 +33,7 @@ MODEL_FILES = ['MaltModel/Conv/JumpCommon.lean', 'MaltModel/Conv/Break.lean', 'M
 FUEL = 4000
 CLS_EXEMPT = 'jump_in_finally'
 CLS_FINDING = 'raise_in_finally_over_jump'
+CLS_TRYELSE = 'jump_in_try_body_with_else_clause'
 
 
 # ------------------------------------------------------------------------------------------------------
@@ -344,6 +345,72 @@ def extra_programs():
                              decisions=progen.decision_vectors(random.Random(i), 6))
 
 
+def _tryelse_source(jump, loop, pos, shape, fin, guarded):
+    """One program of the try-else family.  `jump`: return/break/continue; `loop`: for/while/None (function level,
+    return only); `pos`: where the jump sits (body/handler/else); `shape`: the else clause is plain statements / starts
+    with an `if` / contains a further jump; `fin`: with a finally clause; `guarded`: the jump sits under `if d():`."""
+    L = ['def f(a, b, c):', '    x = a', '    y = b']
+    ind = '    '
+    if loop == 'for':
+        L.append(ind + 'for i in n():'); ind += '    '
+    elif loop == 'while':
+        L.append(ind + 'while d():'); ind += '    '
+    js = {'return': 'return tr(7, x)', 'break': 'break', 'continue': 'continue'}[jump]
+    other = 'return tr(8, y)' if loop is None else ('continue' if jump != 'continue' else 'break')
+
+    def put(i, stmt):
+        if guarded:
+            L.append(i + 'if d():'); L.append(i + '    ' + stmt); L.append(i + 'y = tr(6, y)')
+        else:
+            L.append(i + stmt)
+    L.append(ind + 'x = tr(1, x)')
+    L.append(ind + 'try:')
+    L.append(ind + '    if d():')
+    L.append(ind + '        raise E1(tr(2))')
+    if pos == 'body':
+        put(ind + '    ', js)
+    else:
+        L.append(ind + '    x = tr(3, x)')
+    L.append(ind + 'except E1:')
+    if pos == 'handler':
+        put(ind + '    ', js)
+    else:
+        L.append(ind + '    y = tr(4, y)')
+    L.append(ind + 'else:')
+    if pos == 'else':
+        put(ind + '    ', js)
+    elif shape == 'plain':
+        L.append(ind + '    x = tr(5, x)'); L.append(ind + '    tr(10, y)')
+    elif shape == 'if':
+        L.append(ind + '    if d():'); L.append(ind + '        x = tr(5, x)'); L.append(ind + '    tr(10, y)')
+    else:
+        L.append(ind + '    tr(10, y)'); L.append(ind + '    if d():'); L.append(ind + '        ' + other)
+        L.append(ind + '    x = tr(5, x)')
+    if fin:
+        L.append(ind + 'finally:'); L.append(ind + '    tr(9, x)')
+    L.append(ind + 'tr(11, x, y)')
+    L.append('    return tr(0, x, y)')
+    return '\n'.join(L) + '\n'
+
+
+def tryelse_programs():
+    """try/except/else[/finally] with the jump in the protected block, in a handler and in the else clause, for
+    return/break/continue, inside for/while (return also at function level), else clause of three shapes, jump guarded
+    or not: the shapes the `visit_Try` guard of `Try.orelse` (continue and return passes) is about."""
+    import progen, itertools
+    k = 0
+    for jump, loop in [(j, l) for j in ('return', 'break', 'continue') for l in ('for', 'while')] + [('return', None)]:
+        for pos, shape, fin, guarded in itertools.product(('body', 'handler', 'else'), ('plain', 'if', 'jump'),
+                                                          (False, True), (True, False)):
+            if pos == 'else' and shape != 'plain':
+                continue
+            k += 1
+            src = _tryelse_source(jump, loop, pos, shape, fin, guarded)
+            yield progen.Program(progen.PRELUDE + src, [(1, 2, 3)], {'try_else', jump, 'tryelse:' + pos, 'try'} |
+                                 ({'finally'} if fin else set()), 'tryelse',
+                                 decisions=progen.decision_vectors(random.Random(1000 + k), 8, length=10))
+
+
 def else_programs():
     import progen
     for i, s in enumerate(ELSE_PROGRAMS):
@@ -586,6 +653,10 @@ def gen_programs(run, info):
         jobs.append((p.to_json(), False, True))
     for p in else_programs():
         jobs.append((p.to_json(), True, False))
+    nt = len(jobs)
+    for p in tryelse_programs():
+        jobs.append((p.to_json(), False, False))
+    info['try_else_family'] = len(jobs) - nt
     sk = {}
     n0 = len(jobs)
     for p in progen.skeleton_programs(max_stmts=4, max_depth=3, cap=None, rng=random.Random(run.seed), info=sk):
@@ -618,7 +689,7 @@ def gen_programs(run, info):
     cap = os.environ.get('C01J_MAX_PROGRAMS')      # development aid (mutation runs): stride-sample every stream
     if cap and len(jobs) > int(cap):
         stride = len(jobs) // int(cap) + 1
-        keep = max(20, info.get('corpus', 0) + len(EXTRA_PROGRAMS) + len(ELSE_PROGRAMS))
+        keep = max(20, info.get('corpus', 0) + len(EXTRA_PROGRAMS) + len(ELSE_PROGRAMS) + info.get('try_else_family', 0))
         jobs = jobs[:keep] + jobs[keep::stride]
         info['development_cap'] = int(cap)
     return jobs
@@ -724,7 +795,8 @@ def check_part(run, jobs=None):
         a = parse_sexp(ans)
         if kind == 'class':
             d = dict((x[0], x[1] == 'True') for x in a)
-            classes[m[1]] = CLS_EXEMPT if d['jumpInFinally'] else (CLS_FINDING if d['raiseInFinallyOverJump'] else None)
+            classes[m[1]] = CLS_EXEMPT if d['jumpInFinally'] else (
+                CLS_FINDING if d['raiseInFinallyOverJump'] else (CLS_TRYELSE if d.get('jumpInTryBodyWithElse') else None))
     for m, ans in zip(meta, answers):
         kind = m[0]
         r = results[m[1]]
